@@ -48,11 +48,26 @@ def realize_op(project, op):
 
 
 def realize(project, rec):
+    """The composite is built the way a client builds it while showing a
+    preview: nested sets are attached when they hold their first sub-change,
+    the outer set is asked for its resources in between, and the remaining
+    sub-changes are added afterwards."""
     from rope.base import change as rc
 
     cs = rc.ChangeSet(rec["desc"])
+    late = []
     for op in rec["ops"]:
-        cs.add_change(realize_op(project, op))
+        if op[0] == "set" and len(op[2]) >= 1:
+            inner = rc.ChangeSet(op[1])
+            inner.add_change(realize_op(project, op[2][0]))
+            cs.add_change(inner)
+            cs.get_changed_resources()
+            late.append((inner, op[2][1:]))
+        else:
+            cs.add_change(realize_op(project, op))
+    for inner, rest in late:
+        for sub in rest:
+            inner.add_change(realize_op(project, sub))
     return cs
 
 
